@@ -29,11 +29,13 @@ def tree_shapes(leaves):
     return out
 
 
-SF_RE_CPP = re.compile(r'new SpinFactor\("SF", SF_4Body::(\w+)\s*, ([\d, ]+)\)')
-SF_RE_PY = re.compile(r'SpinFactor\("SF", SF_4Body\.(\w+)\s*, ([\d, ]+)\)')
-LS_RE = re.compile(r'(?:new Lineshapes::|Lineshapes\.)(RBW|GSpline|kMatrix|FOCUS)\("([^"]*)",\s*(.*?)(?:,\s*FF(?:::|\.)BL2)', re.S)
-N_RE_CPP = re.compile(r"spin_factor_list\.back\(\),\s*(\d+)\}\);")
-N_RE_PY = re.compile(r"spin_factor_list\[-1\],\s*(\d+)\)\)")
+# the structure is cut out of the emitted text with patterns that tolerate any spacing (the exact text is compared separately,
+# as a correspondence that the property does not determine)
+SF_RE_CPP = re.compile(r'new\s+SpinFactor\(\s*"SF"\s*,\s*SF_4Body::(\w+)\s*,\s*([\d,\s]+?)\s*\)')
+SF_RE_PY = re.compile(r'(?<![\w:])SpinFactor\(\s*"SF"\s*,\s*SF_4Body\.(\w+)\s*,\s*([\d,\s]+?)\s*\)')
+LS_RE = re.compile(r'(?:new\s+Lineshapes::|Lineshapes\.)(RBW|GSpline|kMatrix|FOCUS)\(\s*"([^"]*)"\s*,\s*(.*?)(?:,\s*FF(?:::|\.)BL2)', re.S)
+N_RE_CPP = re.compile(r"spin_factor_list\.back\(\)\s*,\s*(\d+)\s*\}\s*\)\s*;")
+N_RE_PY = re.compile(r"spin_factor_list\[-1\]\s*,\s*(\d+)\s*\)\s*\)")
 
 
 def parse_amp_text(text, py):
@@ -204,8 +206,8 @@ def run(ctx):
                     elif ans[1] != out:
                         a, b = ans[1].split("\n"), out.split("\n")
                         k = next((i for i, (x, y) in enumerate(zip(a, b)) if x != y), min(len(a), len(b)))
-                        res.violation("the emitted text differs from the model's text (first differing line shown)", sub,
-                                      impl=b[k] if k < len(b) else "<end>", model=a[k] if k < len(a) else "<end>", clause="model tie: emitted text")
+                        res.stricter("the emitted text differs from the model's text (first differing line shown)", sub,
+                                     impl=b[k] if k < len(b) else "<end>", model=a[k] if k < len(a) else "<end>", clause="model tie: emitted text")
 
                 batch.add(["emit_text", py, node_wire(ln, wtree), [s.name for s in states[1:]], text_oracles(ln)[0], text_oracles(ln)[1], bool(ln.fix),
                            [f"{ln.amp.real:.6}", f"{ln.err.real:.6}", f"{ln.amp.imag:.6}", f"{ln.err.imag:.6}"], spline_consts(doc)], on_text)
